@@ -12,7 +12,7 @@ R-TUPLEROLE the *_intersection / *_distance / *_iterations wrappers index the re
 import ast
 import itertools
 
-from ..core.astutil import u, call_name, calls, iter_stmts, const, disjuncts, conjuncts, index_elts, ncmp, strip_docstring
+from ..core.astutil import u, call_name, calls, iter_stmts, const, disjuncts, conjuncts, index_elts, ncmp, strip_docstring, canon_inline
 from ..core.index import AnalysisError
 
 N1 = "distance3d.gjk._gjk_nesterov_accelerated"
@@ -464,10 +464,13 @@ def r_mainloop(idx, rep, rule="R-MAINLOOP"):
     L = local_names(a) | local_names(b) | ((set(a.params()) | set(b.params())) - set(differing))
 
     def lines(f):
-        body = [s for s in f.node.body if not (isinstance(s, ast.Expr) and isinstance(s.value, ast.Constant))]
+        body = [s for s in canon_inline(f.node).body if not (isinstance(s, ast.Expr) and isinstance(s.value, ast.Constant))]
         txt = "\n".join(ast.unparse(s) for s in body)
         return [re.sub(r"[A-Za-z_][A-Za-z_0-9]*", lambda m: "_" if m.group(0) in L else m.group(0), ln) for ln in txt.splitlines()]
     la, lb = lines(a), lines(b)
+
+    # after canon_inline the intermediate `y` is substituted into the direction update
+    MOM = ("_ = _ * _ + (1.0 - _) * _", "_ = _ * _ + (1.0 - _) * (_ * _ + (1.0 - _) * _)")
 
     def exempt(line):
         t = line.strip()
@@ -478,7 +481,7 @@ def r_mainloop(idx, rep, rule="R-MAINLOOP"):
         if "np.empty(" in t or "np.array(" in t or ".copy()" in t or "np.zeros(" in t:
             return True
         # the momentum block: the generic variant has the extra MeshGraph branch (normalised directions, (i+2)/(i+3)) around the same statements
-        if "norm_vector(" in t or re.fullmatch(r"_ = \(_ \+ [12]\) / \(_ \+ 3\)", t) or t == "_ = _ * _ + (1.0 - _) * _":
+        if "norm_vector(" in t or re.fullmatch(r"_ = \(_ \+ [12]\) / \(_ \+ 3\)", t) or t in MOM:
             return True
         return False
     bad = []
@@ -494,7 +497,7 @@ def r_mainloop(idx, rep, rule="R-MAINLOOP"):
               "%d / %d statement lines compared" % (len(la), len(lb)))
     # and the plain (non-accelerated) momentum statements occur in both
     def mom(ls):
-        return {t.strip() for t in ls if t.strip() in ("_ = (_ + 1) / (_ + 3)", "_ = _ * _ + (1.0 - _) * _")}
+        return {t.strip() for t in ls if t.strip() in ("_ = (_ + 1) / (_ + 3)", MOM[1])}
     rep.check(mom(la) == mom(lb) and len(mom(la)) == 2, rule, "%s|plain momentum block" % a.key, a.where,
               "the non-normalised momentum update differs between the variants: %s vs %s" % (sorted(mom(la)), sorted(mom(lb))), "identical")
 
